@@ -278,6 +278,24 @@ func CheckEpochs(c *core.Ctx, d1 *lref.DAG, desc string, sealFrame int, kind str
 			return n, ""
 		}},
 	}
+	if rep["restart"] {
+		restarted := func(mk func() (*Node, string)) func() (*Node, string) {
+			return func() (*Node, string) {
+				n, msg := mk()
+				if msg != "" {
+					return nil, msg
+				}
+				m, err := n.Restart()
+				if err != nil {
+					return nil, "restart failed: " + err.Error()
+				}
+				return m, ""
+			}
+		}
+		starts = append(starts, start{"sealed(shortest path), then restarted", restarted(starts[0].mk)},
+			start{"sealed(longest path), then restarted", restarted(starts[1].mk)},
+			start{"reset-from-mid-epoch, then restarted", restarted(starts[3].mk)})
+	}
 	maxFrame2 := 0
 	for _, e := range d2.Events {
 		if e.Frame > maxFrame2 {
@@ -301,6 +319,14 @@ func CheckEpochs(c *core.Ctx, d1 *lref.DAG, desc string, sealFrame int, kind str
 			}
 			nb := len(node.Blocks)
 			for k, x := range seq {
+				if rep["restart"] && k == len(seq)-1 && strings.Contains(st.name, "shortest path)") {
+					m, rerr := node.Restart()
+					if rerr != nil {
+						violate("restart", "restart/bootstrap-failed", replay(), "[%s] restart before n%d failed: %v [%v]", st.name, x, rerr, replay())
+						return false
+					}
+					node = m
+				}
 				err, crit := node.Process(evs2[x])
 				if err != nil || crit != "" {
 					violate("accept", "accept/rejected-valid-event-new-epoch", replay(), "[%s] Process(n%d) = %v %s after %v in the new epoch [%v]", st.name, x, err, crit, seq[:k], replay())
@@ -338,7 +364,11 @@ func CheckEpochs(c *core.Ctx, d1 *lref.DAG, desc string, sealFrame int, kind str
 				return false
 			}
 			if prev, ok := table2[nm]; ok && prev != obs {
-				violate("epoch", "epoch/new-epoch-depends-on-history", replay(), "new-epoch event set %v: [%s] observes\n  %s\nbut [%s] observed\n  %s [%v]", maskList(nm), st.name, obs, from2[nm], prev, replay())
+				cat := "epoch"
+				if strings.Contains(st.name, "restart") || strings.Contains(from2[nm], "restart") || rep["restart"] {
+					cat = "restart"
+				}
+				violate(cat, "epoch/new-epoch-depends-on-history", replay(), "new-epoch event set %v: [%s] observes\n  %s\nbut [%s] observed\n  %s [%v]", maskList(nm), st.name, obs, from2[nm], prev, replay())
 				return false
 			} else if !ok {
 				table2[nm] = obs
